@@ -3,6 +3,7 @@ import VermouthModel.C18_Map
 import VermouthModel.C18_Order
 import VermouthModel.C18_Write
 import VermouthModel.C18_MapWrite
+import VermouthModel.C18_Inter
 open Proto C18
 
 def posOf (x y z : Tok) : Option Pos := do pure (← x.int?, ← y.int?, ← z.int?)
@@ -57,6 +58,66 @@ def history (reset : Bool) (P : Params) (vsn : String) : List Job → Cache → 
     let r := selectContactsS (if reset then [] else cache) P (withSites j.atoms vs) j.edges j.contacts
     encJob vs r.1 :: history reset P vsn rest r.2
 
+
+/-! ### `gox`: the pipeline on the whole state (interaction table, parameter tables); `chain` and
+`_old_resid` may be `None` (they cross through `chainTag` / `oldSentinel`) -/
+
+structure AtomW where
+  a : Atom
+  old : Option Int
+
+def atomWOf (t : Tok) : Option AtomW := do
+  match ← t.list? with
+  | [k, an, r, o, rn, ch, ty, cg, x, y, z, ss] =>
+    let old ← o.optInt?
+    pure { a := { key := ← k.int?, atomname := ← an.str?, resid := ← r.int?, oldResid := old.getD 0,
+                  resname := ← rn.str?, chain := chainTag (← ch.optStr?), atype := ← ty.str?, cg := ← cg.optInt?,
+                  pos := ← posOf x y z, ss := ← ss.optStr? },
+           old := old }
+  | _ => none
+
+def contactWOf (t : Tok) : Option Contact := do
+  match ← t.list? with
+  | [ra, ca, rb, cb] => pure { residA := ← ra.int?, chainA := chainTag (← ca.optStr?), residB := ← rb.int?,
+                               chainB := chainTag (← cb.optStr?) }
+  | _ => none
+
+def interOf (t : Tok) : Option Inter := do
+  match ← t.list? with
+  | [atoms, tag] => pure { atoms := ← ints? atoms, tag := ← tag.str? }
+  | _ => none
+
+def sectionOf (t : Tok) : Option (String × List Inter) := do
+  match ← t.list? with
+  | [name, items] => pure (← name.str?, ← (← items.list?).mapM interOf)
+  | _ => none
+
+def preCount (t : Tok) : Option (Option Nat) :=
+  match t with
+  | Tok.none => some none
+  | t => t.nat?.map some
+
+def encVSW (sentinel : Int) (v : VSite) : String :=
+  encList [encInt v.key, encInt v.bb, encInt v.resid,
+           (if v.oldResid = sentinel then "-" else encInt v.oldResid), encStr v.resname, encStr v.atype,
+           encInt v.cg, encOptStr (untagChain v.chain), encInt v.pos.1, encInt v.pos.2.1, encInt v.pos.2.2,
+           encStr v.atomname, encInt v.charge, encInt v.mass, encOptStr v.ss]
+
+def encTable (t : ITable) : String :=
+  encList (t.map fun e => encList [encStr e.1, encList (e.2.map fun i => encList [encList (i.atoms.map encInt), encStr i.tag])])
+
+def encAt : Option (List AtE) → String
+  | none => "-"
+  | some l => encList (l.map fun | .pre i => encStr s!"pre{i}" | .site k => encInt k)
+
+def encNb : Option (List NbE) → String
+  | none => "-"
+  | some l => encList (l.map fun | .pre i => encStr s!"pre{i}" | .go a b d => encList [encStr a, encStr b, encNat d])
+
+def encOutcomeX : Outcome → String
+  | .exit => "exit"
+  | .keyerror => "keyerror"
+  | .ok out => "ok " ++ encList (out.map fun c => encList [encStr c.ta, encStr c.tb, encNat c.d2])
 
 def qOf (t : Tok) : Option Q := do
   match ← t.list? with
@@ -161,6 +222,25 @@ def handle (_ : Unit) (toks : List Tok) : Unit × String :=
         let os ← (← orders.list?).mapM ints?
         let (vs, o) := goPipelineOrd P (← vsn.str?) as es cs os
         pure (encJob vs o)
+    | [Tok.str "gox", pre, bb, vsn, atoms, edges, contacts, lp, lq, up, uq, sep, orders, table, atpre, nbpre] => do
+        let P : Params := { pre := ← pre.str?, backbone := ← bb.str?,
+                            low := { p := ← lp.int?, q := ← lq.nat? }, up := { p := ← up.int?, q := ← uq.nat? },
+                            sep := ← sep.int? }
+        let ws ← (← atoms.list?).mapM atomWOf
+        let es ← (← edges.list?).mapM edgeOf
+        let cs ← (← contacts.list?).mapM contactWOf
+        let os ← (← orders.list?).mapM ints?
+        let tab ← (← table.list?).mapM sectionOf
+        let sentinel := oldSentinel (ws.map (·.old)) (cs.map fun c => (c.residA, c.residB))
+        let as := ws.map fun w => match w.old with
+          | some _ => w.a
+          | none => { w.a with oldResid := sentinel }
+        let st : GoState := { atoms := as, edges := es, inter := tab,
+                              atomtypes := (← preCount atpre).map fun n => (List.range n).map AtE.pre,
+                              nonbond := (← preCount nbpre).map fun n => (List.range n).map NbE.pre }
+        let (s', vs, o) := goPipelineM P (← vsn.str?) st cs os
+        pure ("vs " ++ encList (vs.map (encVSW sentinel)) ++ " tab " ++ encTable s'.inter
+              ++ " at " ++ encAt s'.atomtypes ++ " nb " ++ encNb s'.nonbond ++ " go " ++ encOutcomeX o)
     | [Tok.str "gohist", reset, pre, bb, vsn, lp, lq, up, uq, sep, jobs] => do
         let P : Params := { pre := ← pre.str?, backbone := ← bb.str?,
                             low := { p := ← lp.int?, q := ← lq.nat? }, up := { p := ← up.int?, q := ← uq.nat? },
